@@ -38,11 +38,14 @@ func FullPath(root, sub string) string {
 
 // routeFunc is the generated route function: it makes itself observable through response headers
 // (Add, so a second invocation shows) and is a schedule point.
-func routeFunc(id int) restful.RouteFunction {
+func routeFunc(id int, hook *func(int)) restful.RouteFunction {
 	return func(req *restful.Request, resp *restful.Response) {
 		if t := sim.Cur(); t != nil {
 			t.Ev("route", "", id)
 			t.Y(sim.SiteHandler)
+			if hook != nil && *hook != nil {
+				(*hook)(id)
+			}
 		}
 		resp.Header().Add("X-Route", fmt.Sprint(id))
 		resp.Header().Set("X-Params", kv(req.PathParameters()))
@@ -74,8 +77,8 @@ func condTrue(r *http.Request) bool {
 }
 
 // BuildRoute turns a spec into a RouteBuilder on ws.
-func BuildRoute(ws *restful.WebService, r RouteSpec) *restful.RouteBuilder {
-	b := ws.Method(r.Method).Path(r.Path).To(routeFunc(r.ID))
+func BuildRoute(ws *restful.WebService, r RouteSpec, hook *func(int)) *restful.RouteBuilder {
+	b := ws.Method(r.Method).Path(r.Path).To(routeFunc(r.ID, hook))
 	if len(r.Consumes) > 0 {
 		b.Consumes(r.Consumes...)
 	}
@@ -92,7 +95,7 @@ func BuildRoute(ws *restful.WebService, r RouteSpec) *restful.RouteBuilder {
 }
 
 // BuildService creates the WebService with the given routes (in that order).
-func BuildService(s SvcSpec, routes []RouteSpec) *restful.WebService {
+func BuildService(s SvcSpec, routes []RouteSpec, hook *func(int)) *restful.WebService {
 	ws := new(restful.WebService)
 	ws.Path(s.Root)
 	ws.SetDynamicRoutes(s.Dynamic)
@@ -100,7 +103,7 @@ func BuildService(s SvcSpec, routes []RouteSpec) *restful.WebService {
 		ws.Filter(passFilter(fmt.Sprintf("s%d.%d", s.ID, i)))
 	}
 	for _, r := range routes {
-		ws.Route(BuildRoute(ws, r))
+		ws.Route(BuildRoute(ws, r, hook))
 	}
 	return ws
 }
@@ -214,6 +217,11 @@ type World struct {
 	Router  string // curly | jsr311
 	Filters int    // container filters
 	Recover bool
+	// Reentrant adds a container filter that, like the library's own OPTIONS and CORS filters, asks
+	// the container for its registered services while the request is in flight.
+	Reentrant bool
+	// OnRoute runs inside every route function (live container only).
+	OnRoute func(routeID int)
 
 	C    *restful.Container
 	Live map[int]*restful.WebService
@@ -254,6 +262,16 @@ func (w *World) newContainer() *restful.Container {
 	for i := 0; i < w.Filters; i++ {
 		c.Filter(passFilter(fmt.Sprintf("c%d", i)))
 	}
+	if w.Reentrant {
+		c.Filter(func(req *restful.Request, resp *restful.Response, chain *restful.FilterChain) {
+			if t := sim.Cur(); t != nil {
+				t.Count("reach:reentrant-filter-ran")
+				t.Y(sim.SiteFilterPre)
+			}
+			resp.Header().Set("X-Services", fmt.Sprint(len(c.RegisteredWebServices()) >= 0))
+			chain.ProcessFilter(req, resp)
+		})
+	}
 	return c
 }
 
@@ -276,7 +294,7 @@ func (w *World) Fresh(st RegState) *restful.Container {
 		for _, rid := range st.Routes[id] {
 			rs = append(rs, w.RouteBy[rid])
 		}
-		c.Add(BuildService(sp, rs))
+		c.Add(BuildService(sp, rs, nil))
 	}
 	for _, pid := range st.Plain {
 		p := w.Plains[pid]
@@ -298,7 +316,7 @@ func (w *World) Start(st RegState) {
 		for _, rid := range st.Routes[sp.ID] {
 			rs = append(rs, w.RouteBy[rid])
 		}
-		w.Live[sp.ID] = BuildService(sp, rs)
+		w.Live[sp.ID] = BuildService(sp, rs, &w.OnRoute)
 	}
 	for _, id := range st.Members {
 		w.C.Add(w.Live[id])
@@ -314,7 +332,7 @@ func (w *World) Do(o AdminOp) {
 		w.C.Remove(w.Live[o.Svc])
 	case "route":
 		ws := w.Live[o.Svc]
-		ws.Route(BuildRoute(ws, w.RouteBy[o.Route]))
+		ws.Route(BuildRoute(ws, w.RouteBy[o.Route], &w.OnRoute))
 	case "unroute":
 		r := w.RouteBy[o.Route]
 		w.Live[o.Svc].RemoveRoute(FullPath(w.svc(o.Svc).Root, r.Path), r.Method)
